@@ -256,6 +256,10 @@ pub trait Prop: Sync {
     fn shards(&self) -> usize {
         16
     }
+    /// bound on shrinking work (each iteration re-runs the case)
+    fn max_shrink_iters(&self) -> u32 {
+        4000
+    }
     fn test(&self, case: &Self::Case, st: &mut Stats) -> TestResult;
 }
 
@@ -321,7 +325,7 @@ impl<P: Prop> DynCheck for P {
                         let config = Config {
                             cases: per,
                             failure_persistence: None,
-                            max_shrink_iters: 4000,
+                            max_shrink_iters: self.max_shrink_iters(),
                             max_global_rejects: 1_000_000,
                             max_local_rejects: 1_000_000,
                             ..Config::default()
